@@ -19,7 +19,7 @@ MIN_NONTRIVIAL = {"quick": 300, "thorough": 3000}
 RULE = ("cases = a container or data-class type (List/Set/FrozenSet/Deque/Tuple[T,...]/Tuple[T1,T2]/Dict[K,V] over element types int, "
         "int>=0 (a Rule), str(max_length 2), float, date, Optional[int], nested one level: List[List[int]], Dict[str,List[int]], "
         "List[Dict[str,int]], Tuple[List[int],...]; Schema/DataClass with 1-4 fields (required / default, per-field on_error, "
-        "typed addition); def f(*args: T)) x one of the 27 (invalid_items, invalid_keys, invalid_values) triples x 6 inputs with "
+        "typed addition, Field(dependencies=...) between the fields); def f(*args: T)) x one of the 27 (invalid_items, invalid_keys, invalid_values) triples x 6 inputs with "
         "every subset of <=3 bad positions (first, middle, last, all, none) in list / tuple / set / deque input shapes. Expected "
         "result is rebuilt from per-element probes. Non-trivial = at least one element is offending and a non-throw policy governs "
         "it; distinct = (type shape, policy triple, offending pattern).")
@@ -184,6 +184,14 @@ def make_case(i, rng, tier):
             on_error = None
         fields.append(("f%d" % j, fs, required, default, on_error))
     addition = rng.choice([None, None, True, False, "int"])
+    deps = {}
+    if n > 1 and rng.random() < 0.35:
+        # Field(dependencies=[...]): the field may only be given together with another one
+        a, b = rng.sample(range(n), 2)
+        deps["f%d" % a] = "f%d" % b
+        if n > 2 and rng.random() < 0.3:
+            c = rng.choice([j for j in range(n) if j not in (a, b)])
+            deps["f%d" % b] = "f%d" % c
     inputs = []
     for _ in range(6):
         d = {}
@@ -196,7 +204,7 @@ def make_case(i, rng, tier):
             d[rng.choice(["extra", "zz"])] = rng.choice([1, "2", "x", [1, 2]])
         inputs.append(d)
     return {"kind": "dc", "base": rng.choice(["Schema", "Schema", "DataClass"]), "fields": fields, "addition": addition, "pol": pol, "inputs": inputs,
-            "strategy": rng.choice([None, True, False])}
+            "strategy": rng.choice([None, True, False]), "deps": deps}
 
 
 # ---- the oracle -----------------------------------------------------------------------------------
@@ -409,6 +417,8 @@ def run_case(case, ctx):
                 kw["default"] = default
         if on_error:
             kw["on_error"] = on_error
+        if case.get("deps", {}).get(name):
+            kw["dependencies"] = [case["deps"][name]]
         if kw:
             ns[name] = utype.Field(**kw)
     try:
@@ -421,6 +431,7 @@ def run_case(case, ctx):
             stats = {"offending": 0, "governed": 0}
             try:
                 exp_d = {}
+                given = set()
                 for name, fs, required, default, on_error in fields:
                     if name not in d:
                         if required:
@@ -430,6 +441,7 @@ def run_case(case, ctx):
                         continue
                     try:
                         exp_d[name] = expected(fs, d[name], pol, stats, case["addition"])
+                        given.add(name)
                     except Reject:
                         stats["offending"] += 1
                         p = on_error or pol[2]
@@ -438,10 +450,17 @@ def run_case(case, ctx):
                         stats["governed"] += 1
                         if p == "preserve":
                             exp_d[name] = d[name]
+                            given.add(name)
                         elif required:
                             raise Reject()  # a required field is never silently excluded
                         elif default != "<none>":
                             exp_d[name] = default
+                for name in sorted(given):
+                    # an excluded value is removed: it neither satisfies nor imposes a dependency
+                    dep = case.get("deps", {}).get(name)
+                    if dep and dep not in given:
+                        stats["dependency_lacking"] = 1
+                        raise Reject()
                 known = {f[0] for f in fields}
                 for k2, v2 in d.items():
                     if k2 in known:
@@ -474,7 +493,7 @@ def run_case(case, ctx):
                     return dict(inst)
                 return {k: v for k, v in inst.__dict__.items() if not k.startswith("__")}
             out = run(thunk)
-            shp = ("dc", case["base"], tuple((shape_of(f[1]), f[2], f[3] != "<none>", f[4]) for f in fields), case["addition"], case["strategy"])
+            shp = ("dc", case["base"], tuple((shape_of(f[1]), f[2], f[3] != "<none>", f[4]) for f in fields), case["addition"], case["strategy"], tuple(sorted(case.get("deps", {}).items())))
             judge(ctx, case, shp, pol, d, exp, out, stats)
     finally:
         _drop(cls)
@@ -505,7 +524,8 @@ def judge(ctx, case, shp, pol, x, exp, out, stats):
         return
     if exp[0] == "reject":
         if out.ok:
-            what = "required-field-silently-excluded" if kind == "dc" else "offending-element-accepted-under-throw-or-positional-exclude"
+            what = ("excluded-value-satisfies-a-dependency" if stats.get("dependency_lacking") else
+                    "required-field-silently-excluded" if kind == "dc" else "offending-element-accepted-under-throw-or-positional-exclude")
             ctx.violation(f"C11/{kind}/accepted-but-must-reject/{what}", f"{kind} {repr(shp)[:160]} pol={pol} input={short(x, 120)}: expected rejection, got {out!r}", wit, sig=sig)
         elif stats["governed"]:
             ctx.held(sig)
